@@ -32,6 +32,41 @@ def replay_dict(inputs, obl):
     r = k('"ab",:{[1 2]}')
     if isinstance(r, str):
         problems.append("string join captured a dictionary")
+    # key kinds: 0 / 0.0 as keys, a symbol and the string spelled like it are different keys
+    k = KlongInterpreter()
+    k('d:::{[0 10] [1 11]}')
+    for src, want in (('d?0', 10), ('0_d', None), ('d?0', KLONG_UNDEFINED), ('#d', 1), ('d,[0.0 5]', None), ('d?0.0', 5), ('0.0_d', None), ('#d', 1),
+                      ('h:::{["host" 1]}', None), ('h?:host', KLONG_UNDEFINED), ('h,:host,,2', None), ('h?:host', 2), ('h?"host"', 1), (':host_h', None),
+                      ('h?:host', KLONG_UNDEFINED), ('h?"host"', 1), ('#h', 1)):
+        try:
+            got = k(src)
+        except Exception as e:
+            problems.append(f"{src} raised {type(e).__name__}: {e}")
+            break
+        if want is not None and got is not want and got != want:
+            problems.append(f"{src} -> {got!r}, expected {want!r}")
+    # a dictionary is a shared object: updates through every alias (function parameter, application by @, each, over) are seen by all
+    k = KlongInterpreter()
+    k('d:::{[1 2]};g::{x,[5 6]};u::{x,y}')
+    for src, probe, want in (('g(d)', 'd?5', 6), ('d:::{[1 2]};g@d', 'd?5', 6), ('d:::{[1 2]};e::d;d u/[[7 8] [9 10]]', '#e', 3),
+                             ("d:::{[1 2] [3 4]};r::{1_x}'[;d]" if False else "d:::{[1 2] [3 4]};{1_x}(d)", '#d', 1)):
+        try:
+            k(src)
+            got = k(probe)
+        except Exception as e:
+            problems.append(f"{src}; {probe} raised {type(e).__name__}: {e}")
+            continue
+        if got != want:
+            problems.append(f"{src}; {probe} -> {got!r}, expected {want!r} (update through an alias was lost)")
+    try:
+        k('d:::{[1 2]}')
+        k['h'] = lambda x: x
+        w = k['g']
+        w(k['d'])
+        if k('d?5') != 6:
+            problems.append("a Klong function called from Python with the dictionary did not update the caller's dictionary")
+    except Exception as e:
+        problems.append(f"python call with a dictionary raised {type(e).__name__}: {e}")
     if problems:
         return dict(confirmed=True, detail='; '.join(problems[:3]))
     return dict(confirmed=False, detail='dictionary histories agree with the finite-map model')
